@@ -4,6 +4,8 @@ package main
 
 import (
 	"fmt"
+	"go/constant"
+	"regexp"
 	"sort"
 	"strings"
 
@@ -83,6 +85,70 @@ func runC15(c *Ctx) {
 			a := argPaths(callCommon(in))
 			c.Check("F", fnName(fn)+"/next file is curIndex+1 (or the current index when nothing is open)", len(a) == 2 && (a[1] == "(gr.curIndex + const:1)" || a[1] == "gr.curIndex"), instrPos(in), 1, describeInstr(in))
 		}
+	}
+	// ---- Decode reads with plain Read and ignores the count: it is only correct on readers that fill the buffer or fail.
+	// The group reader loops until the buffer is full (rule above), a regular file and an in-memory reader return short
+	// only at the end; a buffered or network reader returns short at every buffer boundary and Decode would take the
+	// unfilled tail for data (checksum mismatch on a sound record: repair then cuts the log there).
+	nDec := 0
+	for _, s := range c.CallSites(`^consensus\.NewWALDecoder$`) {
+		cc := callCommon(s.Instr)
+		if cc == nil || len(cc.Args) != 1 || strings.HasSuffix(c.P.Pos(instrPos(s.Instr)), "_test.go") {
+			continue
+		}
+		nDec++
+		typ := "unknown (not a conversion of a concrete reader at the call site)"
+		if mi, ok := cc.Args[0].(*ssa.MakeInterface); ok {
+			typ = short(mi.X.Type().String())
+		}
+		ok := typ == "*lib/autofile.GroupReader" || typ == "*os.File" || typ == "*bytes.Reader"
+		c.Check("W", fnName(rootFn(s.Caller))+"/the WAL decoder built here reads from a reader that fills the buffer", ok, instrPos(s.Instr), 1, "reader type "+typ)
+	}
+	c.Check("W", "consensus.NewWALDecoder/decoder construction sites enumerated", nDec >= 2, c.fnPos("consensus.NewWALDecoder"), nDec, "")
+	// ---- rolled files: the name the writer gives a rolled file is a name the reader's pattern recognises, with the whole
+	// index captured (the format pads to three digits and grows beyond; a pattern that stops at three loses every file
+	// from index 1000 on when the group is re-opened)
+	if fn := c.Fn("lib/autofile", "", "filePathForIndex"); fn != nil {
+		format := ""
+		for _, in := range findInstrs(fn, CallTo(`^fmt\.Sprintf$`, "")) {
+			if k, ok := callCommon(in).Args[0].(*ssa.Const); ok && k.Value != nil && k.Value.Kind() == constant.String {
+				format = constant.StringVal(k.Value)
+			}
+		}
+		var pats []string
+		for _, f := range c.P.ModFuncs {
+			if f.Pkg == nil || strings.TrimPrefix(f.Pkg.Pkg.Path(), modPath+"/") != "lib/autofile" {
+				continue
+			}
+			allInstrs(f, false, func(_ *ssa.Function, in ssa.Instruction) {
+				if cc := callCommon(in); cc != nil && calleeNameNoPath(cc) == "regexp.MustCompile" && len(cc.Args) == 1 {
+					if k, ok := cc.Args[0].(*ssa.Const); ok && k.Value != nil && k.Value.Kind() == constant.String {
+						pats = append(pats, constant.StringVal(k.Value))
+					}
+				}
+			})
+		}
+		ok := len(pats) == 1 && strings.Contains(format, "%03d") && strings.HasPrefix(format, "%v.")
+		why := fmt.Sprintf("format %q, patterns %q", format, pats)
+		if ok {
+			rx, err := regexp.Compile(pats[0])
+			if err != nil {
+				ok, why = false, why+": "+err.Error()
+			} else {
+				for _, idx := range []int{0, 7, 999, 1000, 1001, 12345, 1234567} {
+					name := fmt.Sprintf(strings.Replace(format, "%v", "%s", 1), "wal", idx)
+					m := rx.FindStringSubmatch(name)
+					if len(m) != 2 || m[1] != name[len("wal."):] {
+						ok, why = false, why+fmt.Sprintf(": the name %q written for index %d is not recognised with its whole index (%q)", name, idx, m)
+						break
+					}
+				}
+				if ok && (rx.MatchString("wal") || rx.MatchString("wal.12") || rx.MatchString("wal.bak")) {
+					ok, why = false, why+": the pattern also accepts names the writer never produces for rolled files"
+				}
+			}
+		}
+		c.Check("T", "lib/autofile/rolled-file names: every name filePathForIndex writes is recognised by the reader's pattern with its whole index", ok, fn.Pos(), len(pats)+1, why)
 	}
 	if fn := c.Fn("lib/autofile", "Group", "RotateFile"); fn != nil {
 		flush := CallTo(`^\(\*bufio\.Writer\)\.Flush$`, "")
